@@ -11,3 +11,4 @@ open SamVerif.Incremental
 #print axioms checked_tracks_sources
 #print axioms lsp_glue_file_view
 #print axioms lsp_events_refine_fresh
+#print axioms incremental_refines_fresh_epochs
